@@ -340,9 +340,9 @@ def report(mod, tier, seed, total, meta, log=print):
             unstable += 1
             log('HARNESS-NONDETERMINISM: violation of %s did not reproduce: %s'
                 % (v['clause'], json.dumps(v['case'], default=_js)[:300]))
-    if unstable:
-        write_evidence(mod, tier, seed, total, meta, len(new), extra={
-            'harness_nondeterminism': unstable})
+    if unstable and not confirmed:
+        # nothing reproduced in the driver: harness nondeterminism, never a verdict
+        write_evidence(mod, tier, seed, total, meta, len(new), extra={'harness_nondeterminism': unstable})
         return 3
     for kid, (k, n) in sorted(knownhits.items()):
         print('KNOWN-FINDING: property=%s %s (%d cases)' % (pid, k['text'], n))
@@ -360,7 +360,7 @@ def report(mod, tier, seed, total, meta, log=print):
     write_evidence(mod, tier, seed, total, meta, len(new),
                    extra={'known_finding_hits': {k: n for k, (_, n) in knownhits.items()}})
     sys.stdout.flush()
-    return 1 if new else 0
+    return 1 if confirmed else 0
 
 
 def write_evidence(mod, tier, seed, total, meta, nviol, extra=None):
